@@ -2,6 +2,7 @@
 from __future__ import annotations
 
 import ast
+import re
 
 from ..core import pymachine as PM
 from ..core.pyeval import PyEval, PPath, Decline, show
@@ -140,11 +141,18 @@ def run(ctx):
     rl = helpers.get('read_list')
     ok_rl = False
     if rl is not None:
+        # the elements come out of ONE iteration over range(<length>) - a for loop or a comprehension - each through next_byte
         loops = [n for n in ast.walk(rl) if isinstance(n, ast.For)]
-        ok_rl = len(loops) == 1 and ast.unparse(loops[0].iter).startswith('range(') and \
-            any(isinstance(n, ast.Call) and ast.unparse(n.func) == 'next_byte' for n in ast.walk(loops[0]))
-        if ok_rl:
+        comps = [n for n in ast.walk(rl) if isinstance(n, (ast.ListComp, ast.GeneratorExp)) and len(n.generators) == 1
+                 and not n.generators[0].ifs and isinstance(n.elt, ast.Call) and ast.unparse(n.elt.func) == 'next_byte']
+        bound = None
+        if len(loops) == 1 and not comps and ast.unparse(loops[0].iter).startswith('range(') and \
+                any(isinstance(n, ast.Call) and ast.unparse(n.func) == 'next_byte' for n in ast.walk(loops[0])):
             bound = ast.unparse(loops[0].iter)[6:-1]
+        elif len(comps) == 1 and not loops and ast.unparse(comps[0].generators[0].iter).startswith('range('):
+            bound = ast.unparse(comps[0].generators[0].iter)[6:-1]
+        ok_rl = bound is not None
+        if ok_rl:
             defs = [n for n in ast.walk(rl) if isinstance(n, ast.Assign) and isinstance(n.targets[0], ast.Name) and n.targets[0].id == bound]
             ok_rl = len(defs) == 1 and isinstance(defs[0].value, ast.Call) and ast.unparse(defs[0].value.func) == 'next_byte'
     ctx.ob('decode-loop', 'lists-read-through-checked-reader', ok_rl,
@@ -159,7 +167,17 @@ def run(ctx):
             if case['opcode']:
                 writer.setdefault(case['opcode'], []).append((meth, case))
     writer_emits(ctx, py, w)
-    ev = PyEval()
+    dmod = py.module('deserialize')
+
+    def resolver(call, env, _ev):
+        """helper functions of the deserialize module (the body of a branch moved out of the dispatch loop): evaluated in place"""
+        if isinstance(call.func, ast.Name) and call.func.id in dmod.functions and call.func.id != fn.name \
+                and call.func.id not in env:
+            h = dmod.functions[call.func.id]
+            if not any(isinstance(x, (ast.For, ast.While)) for x in ast.walk(h)):
+                return h, None
+        return None
+    ev = PyEval(resolver=resolver)
     env0 = {'interpreter': INTERP, 'data': ('param', 'data')}
     for op in sorted(writer):
         meths = sorted({m for m, _c in writer[op]})
@@ -421,18 +439,10 @@ def writer_lossless(ctx, py, w):
             if not case['opcode']:
                 continue
             written = {p_ for p_ in params if any(_mentions(o, ('param', p_)) for o in case['operands'])}
-            forced = set()
-            for c, b in case['conds']:
-                if b is False and c[0] == 'param':
-                    forced.add(c[1])
-                if b is True and c[0] == 'cmp' and c[1] == '==' and ('const', 0) in (c[2], c[3]):
-                    other = c[2] if c[3] == ('const', 0) else c[3]
-                    if other[0] == 'call' and other[1] == ('name', 'sum') and other[2] and other[2][0][0] == 'comp':
-                        comp = other[2][0]
-                        if len(comp[3]) == 1 and comp[3][0][1][0] == 'list' and comp[2] == ('call', ('name', 'len'), (('bound', comp[3][0][0]),), ()):
-                            forced |= {el[1] for el in comp[3][0][1][1] if el[0] == 'param'}
-                    if other[0] == 'call' and other[1] == ('name', 'len') and other[2] and other[2][0][0] == 'param':
-                        forced.add(other[2][0][1])
+            from ..core.wiring import forced_empty
+            seq_params = [a.arg for a in mf.node.args.args[1:] if a.annotation is not None
+                          and re.search(r'tuple|list|Sequence', ast.unparse(a.annotation))]
+            forced = forced_empty(case['conds'], seq_params)
             lost = [p_ for p_ in params if p_ not in written and p_ not in slot_bound and p_ not in forced and (meth, p_) not in LABEL_PARAMS]
             n += 1
             ctx.ob('writer-lossless', f'{meth}->{case["opcode"]}', not lost,
